@@ -83,6 +83,26 @@ def validate_thread(args):
     return (viols[-1] if viols else []), n
 
 
+def boot_check(workdir):
+    """C11 on the real start-up path: `hqv boot` starts the real server in-process on journals that carry a uid
+    -> (violations, lines)"""
+    out = os.path.join(workdir, "boot.ndjson")
+    p = subprocess.run([common.HQV, "boot", "--out", out], stdout=subprocess.PIPE, stderr=subprocess.PIPE, text=True, timeout=600)
+    if p.returncode != 0:
+        raise common.ToolError("boot harness failed: " + p.stderr[-2000:])
+    tl = common.tlc("BootTrace.tla", "BootTrace.cfg", workdir, env={"TRACE": out}, workers=1, timeout=600)
+    verdict = common.tlc_printed(tl, "VERDICT")
+    viols = common.tlc_printed(tl, "VIOL")
+    if not verdict or "Model checking completed. No error has been found." not in tl or verdict[-1]["diameter"] - 1 != verdict[-1]["lines"]:
+        raise common.ToolError("boot trace validation did not complete:\n" + tl[-3000:])
+    cases = [json.loads(l) for l in open(out)]
+    res = []
+    for v in (viols[-1] if viols else []):
+        res.append({"formula": v["p"], "signature": v["p"] + "@start", "replay": {"engine": "journal", "boot_case": cases[v["case"] - 1]},
+                    "detail": "real server start: " + json.dumps(cases[v["case"] - 1])[:300]})
+    return res, len(cases)
+
+
 MC = {"quick": ["MC_Journal_S0.cfg"], "thorough": ["MC_Journal_S0.cfg", "MC_Journal_S1.cfg"]}
 
 
@@ -143,6 +163,10 @@ def run(pid, tier, seed):
                                    "detail": f"run {v['run']} journal thread step {v['k']}"})
         for k, v in sorted(divergences.items()):
             print(f"CONFORMANCE-DIVERGENCE (diagnostic, not a verdict): {k} on {len(v)} run(s): the real journal thread differs from JournalModel")
+        boot_cases = 0
+        if pid == "C11":
+            bv, boot_cases = boot_check(work)
+            violations += bv
         for (trace, cdir, _), (viols, _, _) in zip(shards, results):
             first = {}
             for v in viols:
@@ -184,6 +208,7 @@ def run(pid, tier, seed):
             "journals": n_runs, "journal_records": records, "restores_at_record_boundaries": cuts,
             "torn_tail_restores": torn_n, "prunes": prune_n, "profiles": PROFILES,
             "violated_formulas_of_other_properties_seen": others,
+            "real_server_starts_with_an_existing_journal": boot_cases,
             "journal_thread": {"steps_of_the_real_thread_validated": sum(t[1] for t in thread_results),
                                "conformance_divergences": {k: len(v) for k, v in divergences.items()},
                                "model_checking": mc, "wrong_design_refuted": refuted},
@@ -202,12 +227,18 @@ def replay(path):
     work = common.scratch()
     try:
         rep = json.load(open(path))
-        trace = os.path.join(work, "replay.ndjson")
-        env = dict(os.environ)
-        env["TMPDIR"] = work
-        subprocess.run([common.HQV, "journal", "--replay", path, "--torn", "16", "--out", trace], env=env, timeout=900)
-        viols, _, _ = validate((work, trace))
-        seen = sorted({v["p"] for v in viols})
+        if "boot_case" in rep:
+            # a start of the real server on a journal with a uid: the fixed cases are simply run again
+            bv, _ = boot_check(work)
+            seen = sorted({v["formula"] for v in bv})
+        else:
+            trace = os.path.join(work, "replay.ndjson")
+            env = dict(os.environ)
+            env["TMPDIR"] = work
+            subprocess.run([common.HQV, "journal", "--replay", path, "--torn", "16", "--out", trace], env=env, timeout=900)
+            viols, _, _ = validate((work, trace))
+            tviols, _ = validate_thread((work, trace))
+            seen = sorted({v["p"] for v in viols} | {v["p"] for v in tviols if not v["p"].startswith("AUX_")})
         for f in seen:
             print("violated", f)
         want = rep.get("formula")
